@@ -79,6 +79,8 @@ Inductive qtemplate :=
 | QBodyAEq (n : N)   (* ... WHERE CASE WHEN json_valid(body) THEN body->>'$.a' END = $n ORDER BY id, the argument bound as an unsigned integer *)
 | QSyncFirst    (* SELECT xattrs->'$._sync' AS s, json_quote(id) AS id FROM $_keyspace ORDER BY id : the leading column is NULL
                    (and left out of the row) for a document without that xattr *)
+| QUser         (* SELECT json_quote(id) AS id, xattrs->'$.u1' AS u FROM $_keyspace ORDER BY id : a user xattr (the xattrs
+                   column of a document whose only xattr is a short one is itself a short blob) *)
 | QCross.       (* SELECT json_quote(a.id || b.id || c.id || d.id) AS id FROM $_keyspace a, $_keyspace b, $_keyspace c, $_keyspace d
                    ORDER BY a.id, b.id, c.id, d.id : n^4 rows from n documents - a result longer than any buffer *)
 
@@ -266,6 +268,10 @@ Definition eval_query (q : qtemplate) (docs : list qdoc) : list string :=
                                 | Some v => ("{""s"":" ++ v ++ ",""id"":" ++ quote (fst (fst d)) ++ "}")%string
                                 | None => row_id (fst (fst d))
                                 end) sorted
+  | QUser => map (fun d => match alookup String.eqb "u1" (snd d) with
+                           | Some v => ("{""id"":" ++ quote (fst (fst d)) ++ ",""u"":" ++ v ++ "}")%string
+                           | None => row_id (fst (fst d))
+                           end) sorted
   | QCross => let ids := map (fun d => fst (fst d)) sorted in
               flat_map (fun a => flat_map (fun b => flat_map (fun c => map (fun d => row_id (a ++ b ++ c ++ d)) ids) ids) ids) ids
   end.
